@@ -1,7 +1,9 @@
 package main
 
 import (
+	"fmt"
 	"go/types"
+	"strings"
 
 	"golang.org/x/tools/go/ssa"
 )
@@ -30,4 +32,117 @@ func init() {
 			k(st, fr, e.freshVal("fmt", rt))
 		}
 	}
+}
+
+// closureTerms evaluates a function value symbolically on fresh integer
+// arguments (assumed to satisfy `dom`) in the given state. It returns the
+// argument constants and the result leaves. The closure must be single-path
+// and must not write memory; its run-time panics become obligations under dom.
+func (e *Engine) closureTerms(st *State, fr *Frame, fnv Val, nargs int, hint string, dom func(args []Term) Term) (args []Term, res Val) {
+	for i := 0; i < nargs; i++ {
+		args = append(args, e.ctx.Fresh(fmt.Sprintf("%s_a%d", hint, i), SInt))
+	}
+	sub := st.Clone()
+	sub.Assume(dom(args))
+	sub.path = append(sub.path, "@"+hint+".")
+	var vals []Val
+	for _, a := range args {
+		vals = append(vals, mkInt(a))
+	}
+	if fnv.Fn == nil || fnv.Fn.Fn == nil {
+		panic(unsupported("%s: function argument is not a closure known at the call site", hint))
+	}
+	n := 0
+	heapBefore := fmt.Sprint(sub.sliceHeap, sub.objHeap, sub.mapHeap)
+	sfr := &Frame{depth: fr.depth, env: fr.env, fn: fr.fn, regs: fr.regs, names: fr.names}
+	e.execFunction(sub, fnv.Fn.Fn, fnv.Fn.Env, vals, fnv.Fn.Bindings, sfr, nil, func(s2 *State, results []Val) {
+		n++
+		if len(results) == 1 {
+			res = results[0]
+		}
+		if fmt.Sprint(s2.sliceHeap, s2.objHeap, s2.mapHeap) != heapBefore {
+			panic(unsupported("%s: the function argument writes memory", hint))
+		}
+	})
+	if n != 1 {
+		panic(unsupported("%s: the function argument has %d return paths (need exactly 1)", hint, n))
+	}
+	return args, res
+}
+
+func substTerm(t Term, from []Term, to []string) Term {
+	s := t.S
+	for i := range from {
+		s = strings.ReplaceAll(s, from[i].S, to[i])
+	}
+	return Term{s, t.Sort}
+}
+
+func init() {
+	// sort.Search(n, f): ASSUMED contract. Requires f monotone on [0,n) (an obligation at the call site);
+	// calls f only inside [0,n); returns the least index with f true, or n.
+	externModels["sort.Search"] = func(e *Engine, st *State, fr *Frame, callee *ssa.Function, args []Val, rt types.Type, pos string, k callCont) {
+		n := args[0].L[0]
+		as, res := e.closureTerms(st, fr, args[1], 1, "search", func(a []Term) Term { return And(Le(IntLit(0), a[0]), Lt(a[0], n)) })
+		p := func(v string) Term { return substTerm(res.L[0], as, []string{v}) }
+		mono := T(SBool, "(forall ((q_i Int) (q_j Int)) (! (=> (and (<= 0 q_i) (< q_i q_j) (< q_j %s) %s) %s) :pattern ((idx q_i) (idx q_j))))", n.S, p("q_i").S, p("q_j").S)
+		if !strings.Contains(p("q_i").S, "(idx q_i)") {
+			mono = T(SBool, "(forall ((q_i Int) (q_j Int)) (=> (and (<= 0 q_i) (< q_i q_j) (< q_j %s) %s) %s))", n.S, p("q_i").S, p("q_j").S)
+		}
+		e.obligation(st, "call-pre", "sort.Search.monotone@"+pos, mono, "the predicate passed to sort.Search must be monotone on [0,n)")
+		e.obligationPanic(st, "call-pre-n", "sort.Search.n@"+pos, Le(IntLit(0), n))
+		r := e.ctx.Fresh("search_r", SInt)
+		st.Assume(And(Le(IntLit(0), r), Le(r, n)))
+		pat := ""
+		if strings.Contains(p("q_i").S, "(idx q_i)") {
+			pat = " :pattern ((idx q_i))"
+		}
+		st.Assume(T(SBool, "(forall ((q_i Int)) (! (=> (and (<= 0 q_i) (< q_i %s)) (not %s))%s))", r.S, p("q_i").S, pat))
+		st.Assume(T(SBool, "(forall ((q_i Int)) (! (=> (and (<= %s q_i) (< q_i %s)) %s)%s))", r.S, n.S, p("q_i").S, pat))
+		// seed terms so that quantifiers over positions can be instantiated at the result
+		st.Assume(Eq(e.idxWrap(r), r))
+		k(st, fr, mkInt(r))
+	}
+	// sort.SliceStable(x, less): ASSUMED contract. The slice is rearranged by a permutation (exposed as ghost
+	// `sortperm`: new[i] == old[sortperm[i]]); afterwards no later element is less than an earlier one;
+	// elements that less cannot order keep their relative order (sortperm is increasing on them).
+	externModels["sort.SliceStable"] = func(e *Engine, st *State, fr *Frame, callee *ssa.Function, args []Val, rt types.Type, pos string, k callCont) {
+		e.sortSliceModel(st, fr, args, pos, true, k)
+	}
+	externModels["sort.Slice"] = func(e *Engine, st *State, fr *Frame, callee *ssa.Function, args []Val, rt types.Type, pos string, k callCont) {
+		e.sortSliceModel(st, fr, args, pos, false, k)
+	}
+}
+
+func (e *Engine) sortSliceModel(st *State, fr *Frame, args []Val, pos string, stable bool, k callCont) {
+	iv := args[0] // interface holding the slice
+	if iv.Fn == nil || iv.Fn.Bound == nil {
+		panic(unsupported("sort.SliceStable: slice argument not known at the call site"))
+	}
+	sv := *iv.Fn.Bound
+	n := sv.L[2]
+	et := resolve(elemOfSlice(sv.T), nil)
+	perm := e.ctx.Fresh("sortperm", ArrSort(SInt, SInt))
+	st.Assume(T(SBool, "(forall ((q_i Int)) (! (=> (and (<= 0 q_i) (< q_i %s)) (and (<= 0 (select %s q_i)) (< (select %s q_i) %s))) :pattern ((select %s q_i))))", n.S, perm.S, perm.S, n.S, perm.S))
+	st.Assume(T(SBool, "(forall ((q_i Int) (q_j Int)) (! (=> (and (<= 0 q_i) (< q_i q_j) (< q_j %s)) (not (= (select %s q_i) (select %s q_j)))) :pattern ((select %s q_i) (select %s q_j))))", n.S, perm.S, perm.S, perm.S, perm.S))
+	for i, lf := range e.lay.Leaves(et) {
+		h := e.getSliceHeap(st, et, i)
+		oldRow := Select(h, sv.L[0])
+		newRow := e.ctx.DefArray("row_sorted", SInt, lf.Sort, func(kk Term) Term {
+			in := And(Le(sv.L[1], kk), Lt(kk, Add(sv.L[1], n)))
+			return Ite(in, Select(oldRow, Add(sv.L[1], Select(perm, Sub(kk, sv.L[1])))), Select(oldRow, kk))
+		})
+		e.setSliceHeap(st, et, i, e.nameTerm(st, e.sliceHeapKey(et, i), Store(h, sv.L[0], newRow)))
+	}
+	st.ghost["sortperm"] = Val{T: nil, L: []Term{perm}}
+	// order: evaluated on the final arrangement
+	as, res := e.closureTerms(st, fr, args[1], 2, "less", func(a []Term) Term {
+		return And(Le(IntLit(0), a[0]), Lt(a[0], n), Le(IntLit(0), a[1]), Lt(a[1], n))
+	})
+	l := func(x, y string) Term { return substTerm(res.L[0], as, []string{x, y}) }
+	st.Assume(T(SBool, "(forall ((q_i Int) (q_j Int)) (! (=> (and (<= 0 q_i) (< q_i q_j) (< q_j %s)) (not %s)) :pattern ((idx q_i) (idx q_j))))", n.S, l("q_j", "q_i").S))
+	if stable {
+		st.Assume(T(SBool, "(forall ((q_i Int) (q_j Int)) (! (=> (and (<= 0 q_i) (< q_i q_j) (< q_j %s) (not %s)) (< (select %s q_i) (select %s q_j))) :pattern ((select %s q_i) (select %s q_j))))", n.S, l("q_i", "q_j").S, perm.S, perm.S, perm.S, perm.S))
+	}
+	k(st, fr, Val{T: types.NewTuple()})
 }
